@@ -165,11 +165,10 @@ fn alphabet(tier: Tier) -> Alphabet {
     let narrow = Level { name: "narrow", strings: s(&["", "é"]), bytes: vec![vec![], vec![255]], chars: vec!['a', 'é'], int_points: 2, seq_lens: vec![0, 1], long_seq: None, some: true };
     let floor = Level { name: "floor", strings: s(&["z"]), bytes: vec![vec![7]], chars: vec!['z'], int_points: 1, seq_lens: vec![0, 1], long_seq: None, some: true };
     if tier == Tier::Thorough {
-        let xlong = "y".repeat(70_000);
         let xwide = Level {
             name: "extra wide",
-            strings: s(&["", "a", "é", "\0\u{ff}", "🦀", "\"\\\n", &long, &xlong]),
-            bytes: vec![vec![], vec![0x61], vec![0xc3, 0xa9], vec![0x00, 0xff], vec![0x80], (0..=255u8).collect(), vec![0xab; 300], vec![0xcd; 70_000]],
+            strings: s(&["", "a", "é", "\0\u{ff}", "🦀", "\"\\\n", &long]),
+            bytes: vec![vec![], vec![0x61], vec![0xc3, 0xa9], vec![0x00, 0xff], (0..=255u8).collect(), vec![0xab; 300], vec![0xcd; 5000]],
             chars: vec!['a', 'é', '\0', '\u{10ffff}', '\u{7ff}', '\u{800}', '\u{ffff}', '\u{10000}'],
             int_points: 6,
             seq_lens: vec![0, 1, 2, 3],
@@ -180,6 +179,13 @@ fn alphabet(tier: Tier) -> Alphabet {
     } else {
         Alphabet { levels: vec![wide.clone(), wide.clone(), wide, medium, narrow, floor] }
     }
+}
+
+/// One value per variant with every leaf at its largest: strings and byte strings of 70 000
+/// bytes (lengths beyond u16), integers at their maximum, one-element sequences.
+fn giant() -> Alphabet {
+    let l = Level { name: "giant", strings: vec!["y".repeat(70_000)], bytes: vec![vec![0xcd; 70_000]], chars: vec!['\u{10ffff}'], int_points: 2, seq_lens: vec![1], long_seq: None, some: true };
+    Alphabet { levels: vec![l] }
 }
 
 fn shifted(a: &Alphabet, by: usize) -> Alphabet {
@@ -725,7 +731,7 @@ pub fn run(tier: Tier) -> i32 {
     }
 
     // values: per container, the full product under the alphabets (shifted down until it fits the cap)
-    let cap: u128 = tier.pick(400_000, 10_000_000);
+    let cap: u128 = tier.pick(400_000, 6_000_000);
     let base = alphabet(tier);
     let mut transitions = 0u64;
     let mut states = 0u64;
@@ -733,6 +739,8 @@ pub fn run(tier: Tier) -> i32 {
     let mut hashes: Vec<u64> = vec![];
     let mut per_container = serde_json::Map::new();
     let mut all_exhaustive = true;
+    let mut narrowed: Vec<String> = vec![];
+    let mut giant_values = 0u64;
     let mut classes: BTreeMap<String, u64> = BTreeMap::new();
     let mut samples: Vec<Json> = vec![];
     let mut smallest: BTreeMap<String, (usize, Finding, Json, u64)> = BTreeMap::new();
@@ -801,7 +809,7 @@ pub fn run(tier: Tier) -> i32 {
             "shifted_down_by": shift,
             "complete_under_the_levels_used": exhaustive_here,
         });
-        (info, results, exhaustive_here && shift == 0, shift)
+        (info, results, exhaustive_here, shift)
     };
 
     let mut spaces: Vec<(String, &Registry, &Ctx, &str)> = registry.keys().map(|n| (n.clone(), &registry, &ctx, "VerifApp")).collect();
@@ -828,6 +836,29 @@ pub fn run(tier: Tier) -> i32 {
         let (info, results, full, shift) = check_space(cx, name, reg, tag);
         if !full {
             all_exhaustive = false;
+        }
+        if shift > 0 {
+            narrowed.push(format!("{tag}/{name} (level sequence starts {shift} lower)"));
+        }
+        // the giant family
+        {
+            let g = giant();
+            let sp = Space::of_container(name, reg, &g, 0);
+            let n = sp.count().min(5000);
+            let idx: Vec<u128> = (0..n).collect();
+            let rs = par_map(&idx, |_, i| check_value(cx, name, &sp.nth(*i)));
+            for (i, r) in idx.iter().zip(rs) {
+                states += 1;
+                giant_values += 1;
+                transitions += r.steps as u64;
+                hashes.push(r.hash ^ mc_kit::fnv64(tag.as_bytes()));
+                nontrivial += u64::from(r.nontrivial);
+                for f in &r.findings {
+                    *classes.entry(format!("{name}: VIOLATION {}", f.key)).or_insert(0) += 1;
+                    let (name2, tag2, i2) = (name.clone(), tag.to_string(), *i);
+                    note(&mut smallest, f, r.len, &move || json!({"engine": "enumx/C10", "kind": "value", "registry": tag2, "container": name2, "index": i2.to_string(), "alphabet": "giant"}));
+                }
+            }
         }
         let mut bad = 0u64;
         let mut n_here = 0u64;
@@ -1010,7 +1041,9 @@ pub fn run(tier: Tier) -> i32 {
         "distinct_nontrivial": distinct.min(nontrivial),
         "rule": "bounded-exhaustive product (model-checking family, shape E of DESIGN.md section 1): for every container of the traced registry, the full product of its fields' alphabets, where alphabets narrow with container nesting depth (levels below) and the product is taken under the widest level sequence that fits the per-container cap; plus, through the real bincode and JSON bridges of the echo app, every operation value and every output value of every capability (one level narrower); plus hand-built Rust values covering every variant of the shipped protocol types. Distinct = distinct (registry, container, encoding) hashes, non-trivial = encoding has a non-zero byte (flows always). states = values and flows checked, transitions = calls into serde/bincode/serde_json of the Rust types and into the bridges, traces_validated_against_impl = values and flows whose Rust-side bytes/JSON were compared with the schema codec's",
         "exhaustive": all_exhaustive,
-        "exhaustive_note": "true means every container was enumerated completely under the first (widest) level sequence; containers listed with shifted_down_by > 0 were enumerated completely under the narrower sequence named there, the cap was never applied by truncation unless complete_under_the_levels_used is false",
+        "exhaustive_note": "true means every stated space (per container: the level sequence named in `containers`, per capability flow: the one named in `flows`) was enumerated completely, none was truncated; containers whose product under the widest sequence exceeds the cap were enumerated completely under the narrower sequence named for them and are listed in containers_enumerated_under_narrower_levels",
+        "containers_enumerated_under_narrower_levels": narrowed,
+        "giant_family_values (every leaf at its largest, strings/bytes of 70000 bytes)": giant_values,
         "per_container_cap": cap.to_string(),
         "flow_cap_per_capability": flow_cap.to_string(),
         "alphabet_levels (index = nesting depth of named containers)": base.describe(),
@@ -1077,7 +1110,7 @@ pub fn replay(path: &str) -> i32 {
             // the tier decides the alphabets; a replay file records it at top level
             let file: Json = serde_json::from_str(&std::fs::read_to_string(path).unwrap_or_default()).unwrap_or(Json::Null);
             let tier = if file["tier"] == "thorough" { Tier::Thorough } else { tier };
-            let alpha = shifted(&alphabet(tier), shift);
+            let alpha = if v["alphabet"] == "giant" { giant() } else { shifted(&alphabet(tier), shift) };
             let val = Space::of_container(name, reg, &alpha, 0).nth(index);
             println!("  step 1: value #{index} of {name}: {}", short_json(&codec::render(&val)));
             println!("  step 2: schema encoding {}", hex(&codec::encode(&val)));
